@@ -314,3 +314,17 @@ impl Vis {
         ensures r == vis_seq_live(self, old(ev).rest(), cfg),
     { unimplemented!() }
 }
+
+// ---- deserialize_char ----
+uninterp spec fn vis_char(v: Vis, c: char) -> Result<VisVal, Error>;
+impl Vis {
+    #[verifier::external_body]
+    fn visit_char(self, c: char) -> (r: Result<VisVal, Error>)
+        ensures r == vis_char(self, c),
+    { unimplemented!() }
+}
+/// `let mut it = s.as_ref().chars(); (it.next(), it.next())`: the first two characters of the text
+#[verifier::external_body]
+fn cow_first_two_chars<'a>(s: &CowStr<'a>) -> (r: (Option<char>, Option<char>))
+    ensures r.0 == (if s@.len() >= 1 { Some(s@[0]) } else { None::<char> }), r.1 == (if s@.len() >= 2 { Some(s@[1]) } else { None::<char> }),
+{ unimplemented!() }
